@@ -107,10 +107,14 @@ FIELD_TABLE = {
     ("vdaf::prio3::Prio3", "num_proofs"): (1, 255, "Prio3::new: num_proofs == 0 refused"),
     ("vdaf::poplar1::Poplar1", "bits"): (0, SIZE, "Poplar1::new accepts any usize (no guard): 0 is possible"),
     ("vdaf::poplar1::Poplar1AggregationParam", "level"): (0, 65535, "u16"),
-    ("vdaf::prio2::Prio2", "input_len"): (0, (1 << 31), "Prio2::new: 2*npo2(input_len+1) fits u32 and <= generator order"),
+    ("vdaf::prio2::Prio2", "input_len"): (0, (1 << 19) - 1, "Prio2::new: 2*npo2(input_len+1) <= generator order 2^20"),
     ("flp::gadgets::Mul", "num_calls"): (0, SIZE, "A1"),
     ("flp::gadgets::PolyEval", "num_calls"): (0, SIZE, "A1"),
     ("flp::gadgets::ParallelSum", "chunks"): (0, SIZE, "A1"),
+}
+
+LEN_TABLE = {
+    ("vdaf::poplar1::Poplar1AggregationParam", "prefixes"): (1, (1 << 32) - 1),   # try_from_prefixes: non-empty, count fits u32
 }
 
 SYM_TABLE = {
@@ -228,6 +232,8 @@ class PPA:
     def _iv(self, env, e, depth):
         t = e[0]
         f = env.f
+        if t == "ivc":
+            return Iv(e[1], e[2])
         if t == "lit":
             if isinstance(e[1], int):
                 return Iv(e[1], e[1])
@@ -243,7 +249,10 @@ class PPA:
             r = env.param_iv(e)
             return r if r is not None else TOP
         if t == "upvar":
-            return Iv(0, (1 << 64) - 1)
+            tu = getattr(self, "tainted_upvars", {}).get(f.did, set())
+            if e[1].lstrip("*") in tu:
+                return Iv(0, (1 << 64) - 1)
+            return Iv(0, SIZE)     # A1: captured usize accumulators
         if t in ("field", "vfield"):
             # loop induction variable of a Range iterator
             if t == "vfield" and e[2] == "Some" and e[1][0] == "call" and e[1][4] == "std::iter::Iterator::next":
@@ -272,6 +281,12 @@ class PPA:
             return self.iv(env, e[1], depth + 1)
         if t == "len":
             x = e[1]
+            if x[0] in ("field", "vfield"):
+                base = self.adt_of_term(f, x[1])
+                nm = x[2] if x[0] == "field" else x[3]
+                for (adt, fld), (lo, hi) in LEN_TABLE.items():
+                    if fld == nm and base is not None and (base == adt or base.endswith("::" + adt)):
+                        return Iv(lo, hi)
             if x[0] == "phi":
                 init = env.g.eb.init_expr(x[1])
                 sl = static_len_of_local(f, x[1])
@@ -289,6 +304,8 @@ class PPA:
                 return Iv(len(x[2]), len(x[2]))
             if x[0] == "repeat":
                 return Iv(0, 1 << 16)
+            while x[0] == "call" and x[1].split("::")[-1] in ("as_slice", "as_ref", "as_mut_slice") and x[2]:
+                x = x[2][0]
             if x[0] == "call" and x[1].split("::")[-1] in ("to_le_bytes", "to_be_bytes"):
                 m = re.search(r"<impl (u8|u16|u32|u64|u128|usize)>", x[1])
                 if m:
@@ -334,7 +351,10 @@ class PPA:
             return Iv(0, (1 << 64) - 1)
         if t == "phi":
             l = e[1]
-            r = ty_range(f.prog.types[f.body.locals[l]])
+            ty = f.prog.types[f.body.locals[l]]
+            r = ty_range(ty)
+            if r is not None and ty["k"] == "int" and ty["w"] in (0, 64) and not ty["sg"]:
+                return Iv(0, SIZE)     # A1: usize accumulators / counters measure in-memory objects
             return r if r is not None else TOP
         if t == "agg":
             return TOP
@@ -443,6 +463,9 @@ class PPA:
             return self.iv(env, args[0], depth + 1)
         if name in ("len", "capacity", "count"):
             return Iv(0, SIZE)
+        acc = self.accessor_iv(env, e, depth)
+        if acc is not None:
+            return acc
         if name in ("proof_len", "verifier_len", "input_len", "output_len", "prove_rand_len", "query_rand_len", "joint_rand_len",
                     "eval_output_len", "arity", "degree", "calls", "num_gadgets", "num_proofs", "num_aggregators", "random_size",
                     "level", "wire_poly_len", "gadget_poly_len", "proof_length", "bits_to_bytes"):
@@ -454,9 +477,84 @@ class PPA:
             if name == "level":
                 return Iv(0, 65535)
             return Iv(0, SIZE)
+        if name in ("encoded_len", "encoded_len_with_param"):
+            return Iv(0, SIZE)      # A1: the encoded size of an in-memory value
+        if name == "unwrap_u8" and "Choice" in path:
+            return Iv(0, 1)
         if name in ("checked_sub", "checked_add", "checked_mul"):
             return TOP
         return Iv(0, (1 << 64) - 1) if True else TOP
+
+    def accessor_iv(self, env, e, depth):
+        """interval of a call to a crate-local function whose body is a single returned expression
+        (length accessors, small helpers): the callee's expression is evaluated in the callee with its
+        parameters bound to the argument intervals; trait calls join over all non-test impls"""
+        if depth > 12:
+            return None
+        path, args, full, tpath = e[1], e[2], e[3], e[4]
+        name = path.split("::")[-1]
+        cands = [g for g in self.prog.by_id.get(path, []) if not self.prog.is_test_util(g)]
+        if not cands and tpath and tpath != path:
+            cands = [g for g in self.prog.by_id.get(tpath, [])]
+        targets = []
+        for g in cands:
+            if g.impl is None and g.in_trait is not None:
+                impls = [m for m in self.prog.trait_impl_methods(g.in_trait, g.name) if not self.prog.is_test_util(m)]
+                # the default body is used by impls that do not override
+                targets.extend(impls)
+                if not impls or g.body.blocks:
+                    if any(True for _ in [0]) and g.body.blocks and len(g.body.blocks) > 1:
+                        targets.append(g)
+            else:
+                targets.append(g)
+        if not targets or len(targets) > 24:
+            return None
+        key = (path, tuple(repr(self.iv(env, a, depth + 1)) for a in args[1:]))
+        cache = getattr(self, "_acc_cache", None)
+        if cache is None:
+            cache = self._acc_cache = {}
+        if key in cache:
+            return cache[key]
+        cache[key] = None
+        out = None
+        for g in targets:
+            gg = self.guards(g)
+            rds = [rd for rd in gg.retdefs if rd.kind != "partial" and rd.expr is not None]
+            if not rds or len(g.body.blocks) > 40:
+                cache[key] = None
+                return None
+            genv = Env(self, g, adversarial=False)
+            # bind scalar params to the argument intervals
+            for i, a in enumerate(args):
+                pl = i + 1
+                if pl <= g.body.argc:
+                    pe = ("param", g.body.var_names.get(pl, "_%d" % pl), pl)
+                    if i == 0 and g.param_name(1) == "self":
+                        continue
+                    ai = self.iv(env, a, depth + 1)
+                    if ai.lo > -INF and ai.hi < INF:
+                        genv.refine[pe] = ai
+            r = None
+            for rd in rds:
+                x = rd.expr
+                if rd.kind in ("ok", "some") and rd.payload is not None:
+                    x = rd.payload
+                elif rd.kind in ("err", "none"):
+                    continue
+                ri = self.iv(genv, x, depth + 2)
+                r = ri if r is None else r.join(ri)
+            if r is None:
+                cache[key] = None
+                return None
+            out = r if out is None else out.join(r)
+        if out is not None and (out.lo <= -INF or out.hi >= INF):
+            out = None
+        if out is not None and out.hi > SIZE and name in ("proof_len", "verifier_len", "input_len", "output_len", "prove_rand_len",
+                                                         "query_rand_len", "joint_rand_len", "eval_output_len", "arity", "degree", "calls",
+                                                         "wire_poly_len", "gadget_poly_len", "proof_length", "random_size", "encoded_len"):
+            out = Iv(max(out.lo, 0), SIZE)     # A1: instance-determined in-memory sizes
+        cache[key] = out
+        return out
 
     # ------------------------------------------------------------ conditions
     def apply_conditions(self, env, conds):
@@ -503,8 +601,32 @@ class PPA:
                 env.refine[inner] = new if cur is None else cur.meet(new)
 
     # ------------------------------------------------------------ relational facts
+    def equal_forms(self, conds, x):
+        """terms equal to x by the path conditions: Eq(x, y) and Eq(u + c, y) => u == y - c"""
+        out = [x]
+        for c in conds:
+            if c[0] != "rel" or c[1] != "Eq":
+                continue
+            for (l, r) in ((c[2], c[3]), (c[3], c[2])):
+                if l == x and r not in out:
+                    out.append(r)
+                if l[0] == "bin" and l[1] == "Add":
+                    for (u, k) in ((l[2], l[3]), (l[3], l[2])):
+                        if u == x and k[0] in ("lit", "symlit"):
+                            y = ("bin", "Sub", r, k)
+                            if y not in out:
+                                out.append(y)
+        return out
+
     def holds_rel(self, env, conds, op, a, b):
         """is `a <op> b` implied syntactically by a path condition (or by intervals)?"""
+        for a2 in self.equal_forms(conds, a):
+            for b2 in self.equal_forms(conds, b):
+                if self._holds_rel(env, conds, op, a2, b2):
+                    return True
+        return False
+
+    def _holds_rel(self, env, conds, op, a, b):
         ia, ib = self.iv(env, a), self.iv(env, b)
         if op == "Lt" and ia.hi < ib.lo:
             return True
@@ -701,7 +823,52 @@ def definitely_false(ppa, env, c):
     return False
 
 
+def callee_postconditions(ppa, g, conds):
+    """for every `h(args)?` whose success edge is among the necessary conditions: the negations of h's
+    refusing guards (those that dominate h's accepting returns), with h's parameters replaced by the
+    argument terms"""
+    out = []
+    for c in conds:
+        if c[0] != "variant" or c[2] != "Continue" or not c[3]:
+            continue
+        sub = c[1]
+        if not (sub[0] == "call" and sub[4] == "std::ops::Try::branch" and sub[2]):
+            continue
+        inner = sub[2][0]
+        while inner[0] == "call" and inner[1].split("::")[-1] in ("map_err",) and inner[2]:
+            inner = inner[2][0]
+        if inner[0] != "call":
+            continue
+        cands = [h for h in ppa.prog.by_id.get(inner[1], [])] or [h for h in ppa.prog.by_id.get(inner[4] or "", [])]
+        for h in cands[:1]:
+            hg = ppa.guards(h)
+            mapping = {i + 1: a for i, a in enumerate(inner[2])}
+            for e in hg.refusal_edges(("err",)):
+                if e.cond[0] == "rel" and hg.dominates_accepts(e, ("err",)):
+                    neg = ("rel", NEG[e.cond[1]], subst(e.cond[2], mapping), subst(e.cond[3], mapping))
+                    out.append(neg)
+    return out
+
+
+def sanitised_params(ppa, f, conds):
+    """parameters whose length is pinned by an equality with a term that mentions no tainted parameter"""
+    tp = getattr(ppa, "tainted_params", {}).get(f.did, set())
+    out = set()
+    for c in conds:
+        if c[0] == "rel" and c[1] == "Eq":
+            for (x, y) in ((c[2], c[3]), (c[3], c[2])):
+                if x[0] == "len" and x[1][0] == "param":
+                    if not any(isinstance(z, tuple) and z[0] == "param" and z[2] in tp for z in walk(y)):
+                        out.add(x[1][2])
+    return out
+
+
 def path_conditions(ppa, env, g, block):
+    conds = _path_conditions(ppa, env, g, block)
+    return conds + callee_postconditions(ppa, g, conds)
+
+
+def _path_conditions(ppa, env, g, block):
     """conditions of the switch edges every *feasible* path to block must take: edges whose own
     condition is refuted by the intervals (without refinements) are removed first"""
     b = g.body
@@ -775,6 +942,15 @@ def decide_terms(ppa, env, conds, kind, terms, width, o=None):
         if r.within(rng):
             return True, "%r %s %r = %r within %r" % (a, op, b, r, rng)
         return False, "%s %s %s may overflow: %r %s %r = %r exceeds %r" % (fmt(terms[0])[:50], op, fmt(terms[1])[:50], a, op, b, r, rng)
+    if kind == "overflow_neg":
+        a = iv(terms[0])
+        rng = ty_range(width) if width is not None else None
+        lo = rng.lo if rng is not None else -(1 << 63)
+        inner = strip_wrappers(terms[0])
+        ai = iv(inner)
+        if a.lo > lo or (ai.lo >= 0 and ai.hi <= -(lo + 1)):
+            return True, "operand %r is never the minimum value" % (ai if ai.lo >= 0 else a)
+        return False, "negation of %s may overflow: %r" % (fmt(terms[0])[:50], a)
     if kind in ("div_zero", "rem_zero"):
         d = iv(terms[0])
         if d.lo >= 1 or d.hi <= -1:
@@ -794,6 +970,14 @@ def decide_terms(ppa, env, conds, kind, terms, width, o=None):
         ixi = iv(ix)
         if ixi.lo >= 0 and ixi.hi < lni.lo:
             return True, "index %r < len %r" % (ixi, lni)
+        # a vector created as vec![x; n]: its length is the term n
+        lb = ln[1] if ln[0] == "len" else None
+        if lb is not None and lb[0] == "phi":
+            init = env.g.eb.init_expr(lb[1])
+            if init is not None and init[0] == "call" and init[1].split("::")[-1] == "from_elem" and len(init[2]) == 2:
+                n = init[2][1]
+                if ppa.holds_rel(env, conds, "Lt", ix, n) or ppa.holds_rel(env, conds, "Gt", n, ix):
+                    return True, "guard index < %s = len" % fmt(n)[:40]
         if ppa.holds_rel(env, conds, "Lt", ix, ln) or ppa.holds_rel(env, conds, "Gt", ln, ix):
             return True, "guard index < len"
         # induction variable of `0..len(x)` / `0..N` with a guard N <= len(x)
@@ -838,8 +1022,8 @@ def decide_terms(ppa, env, conds, kind, terms, width, o=None):
                 if guarded_by_remaining(ppa, env, conds, n):
                     return True, "wire-derived size checked against the remaining input"
                 return False, "allocation size %s derives from the wire and is not bounded by the input length: %r" % (fmt(n)[:60], ni)
-            if ni.hi <= SIZE:
-                return True, "size %r within the memory budget" % ni
+            if ni.hi <= 16 * SIZE:
+                return True, "size %r within the memory budget (A1)" % ni
             return False, "allocation size %s unbounded: %r" % (fmt(n)[:60], ni)
         if k == "take":
             n = terms[1] if len(terms) > 1 else None
@@ -1083,13 +1267,36 @@ def decide_at_callers(ppa, o, depth=0, seen=None):
         return False, ""
     g = ppa.guards(f)
     own_conds = [e.cond for e in necessary_edges(g, o.block)]
+    # callee-local values (mutable locals, loop variables) cannot be expressed in the caller: freeze
+    # them to their interval in the callee
+    cenv = Env(ppa, f, adversarial=False)
+    ppa.apply_conditions(cenv, own_conds)
+
+    def freeze(e):
+        if not isinstance(e, tuple) or not e:
+            return e
+        if e[0] in ("phi", "upvar") or (e[0] == "vfield" and e[2] == "Some" and e[1][0] == "call" and e[1][4] == "std::iter::Iterator::next"):
+            r = ppa.iv(cenv, e)
+            return ("ivc", r.lo, r.hi, fmt(e)[:30])
+        out = []
+        for y in e:
+            if isinstance(y, tuple):
+                if y and isinstance(y[0], str):
+                    out.append(freeze(y))
+                else:
+                    out.append(tuple(freeze(z) if isinstance(z, tuple) else z for z in y))
+            else:
+                out.append(y)
+        return tuple(out)
+    o_terms = [freeze(x) for x in o.terms]
+    own_conds = [("rel", c[1], freeze(c[2]), freeze(c[3])) + tuple(c[4:]) for c in own_conds if c[0] == "rel"]
     reasons = []
     for (caller, bi, t) in sites:
         cg = ppa.guards(caller)
         mapping = {}
         for i, a in enumerate(t.args):
             mapping[i + 1] = cg.eb.operand(a)
-        terms = [subst(x, mapping) for x in o.terms]
+        terms = [subst(x, mapping) for x in o_terms]
         conds = []
         for c in own_conds:
             if c[0] == "rel":
@@ -1111,3 +1318,108 @@ def decide_at_callers(ppa, o, depth=0, seen=None):
                 return False, "at call site %s:%s: %s" % (caller.id[-50:], t.line, why)
         reasons.append("%s: %s" % (caller.name, why[:60]))
     return True, "discharged at all %d call site(s): %s" % (len(sites), "; ".join(reasons)[:160])
+
+
+# ======================================================================
+# adversarial taint of parameters (for the api-source analysis)
+
+def propagate_taint(ppa, roots, root_policy):
+    """tainted[f.did] = set of parameter locals that syntactically carry caller-controlled data:
+    adversarial parameters of the roots, and parameters of callees whose argument term at some call
+    site mentions a tainted parameter.  Mutable accumulators (phi terms) are deliberately not
+    tainted: index arithmetic over internal buffers is out of the analysis' scope."""
+    tainted = {}
+    upv = {}
+    work = []
+    for f in roots:
+        tainted[f.did] = set(root_policy(f))
+        work.append(f)
+    n = 0
+    while work and n < 50000:
+        n += 1
+        f = work.pop()
+        if f.did not in ppa.scope:
+            continue
+        tp = tainted.get(f.did, set())
+        tu = upv.get(f.did, set())
+        if not tp and not tu:
+            continue
+        g0 = ppa.guards(f)
+
+        def term_tainted(e):
+            for x in walk(e):
+                if isinstance(x, tuple):
+                    if x[0] == "param" and x[2] in tp:
+                        return True
+                    if x[0] == "upvar" and x[1].lstrip("*") in tu:
+                        return True
+            return False
+        for bi, t in f.body.calls():
+            targets = [g for g in ppa.prog.resolve_call(t.callee) if g.did in ppa.scope]
+            if not targets:
+                continue
+            argt = [term_tainted(g0.eb.operand(a)) for a in t.args]
+            for g in targets:
+                cur = tainted.setdefault(g.did, set())
+                new = set(i + 1 for i, v in enumerate(argt) if v and i < g.body.argc)
+                if not new <= cur:
+                    cur |= new
+                    work.append(g)
+        for c in ppa.prog.closures_of(f):
+            if c.did in ppa.scope:
+                names = set(f.param_name(i) for i in tp) | tu
+                cur = upv.setdefault(c.did, set())
+                # closure's own arguments are tainted when the closure is handed to an iterator over
+                # tainted data; approximated by tainting them whenever the parent has tainted params
+                curp = tainted.setdefault(c.did, set())
+                newp = set(range(2, c.body.argc + 1))
+                if not names <= cur or not newp <= curp:
+                    cur |= names
+                    curp |= newp
+                    work.append(c)
+    ppa.tainted_params = tainted
+    ppa.tainted_upvars = upv
+    return tainted
+
+
+def obligation_tainted(ppa, o):
+    f = o.fn
+    tp = set(ppa.tainted_params.get(f.did, set()))
+    tu = ppa.tainted_upvars.get(f.did, set())
+    if tp:
+        g = ppa.guards(f)
+        env = Env(ppa, f, adversarial=False)
+        conds = path_conditions(ppa, env, g, o.block)
+        tp -= sanitised_params(ppa, f, conds)
+    for t in o.terms:
+        if mentions_wire(t):
+            return True
+        for x in walk(t):
+            if isinstance(x, tuple):
+                if x[0] == "param" and x[2] in tp:
+                    return True
+                if x[0] == "upvar" and x[1].lstrip("*") in tu:
+                    return True
+    return False
+
+
+NARROW = (8, 16, 32)
+
+
+def always_obligation(o):
+    """edges that are obligations even on untainted operands: narrow-integer arithmetic, subtraction
+    underflow, division by zero, narrowing conversions (try_from(..).unwrap())"""
+    if o.kind in ("div_zero", "rem_zero"):
+        return True
+    if o.kind.startswith("overflow:"):
+        if o.kind == "overflow:Sub":
+            return True
+        w = o.width
+        if w is not None and w.get("k") == "int" and w.get("w") in NARROW:
+            return True
+        return False
+    if o.kind == "call:unwrap" or o.kind == "call:expect":
+        e = o.terms[0] if o.terms else None
+        if e is not None and e[0] == "call" and e[1].split("::")[-1] in ("try_from", "try_into"):
+            return True
+    return False
